@@ -171,6 +171,21 @@ class MemPrims:
                 return [(A.SOME(val), path), (A.NONE, p2)]
         if short in ("iter", "iter_mut", "into_iter", "enumerate", "rev") and args:
             return [(("iter", self_norm(I, path, args[0])), path)]
+        if short == "next" and "Iterator" in (t["f"].get("def") or name) and args:
+            # any other slice / vector iterator: Some(element) | None; a Some means the iterated vector is not empty
+            it = I._deref_all(path, args[0])
+            base = it
+            while base[0] == "iter":
+                base = base[1]
+            if it[0] == "iter":
+                g = " ".join(t["f"].get("gargs", []))
+                p2 = path.copy()
+                k = sum(1 for e in path.events if e[0] == "iter_next")
+                path.events.append(("iter_next", "some", base))
+                p2.events.append(("iter_next", "none", base))
+                elem = ("elem", base, k)
+                val = ("agg", "tuple", None, (A.W(("enum_idx",), 64), elem)) if "Enumerate" in g else elem
+                return [(A.SOME(val), path), (A.NONE, p2)]
         return None
 
     def find(self, I, path, frame, t, args):
